@@ -49,8 +49,8 @@ PROPS = {
     "C03": dict(theorems=["Props/C03.v", "Props/C18.v"], parts=[
         dict(kind="macro", profile="C03", preds="once,pure", mask="ret,keys", quick=400, thorough=10000),
         dict(kind="sched", mode="sharing", quick=120, thorough=3000)]),
-    "C04": dict(theorems=["Props/C04.v"], parts=[
-        dict(kind="core", profile="C04", mask="keys,qset", preds="c04,wf", quick=Q, thorough=T),
+    "C04": dict(theorems=["Props/C04.v", "Props/C05.v"], parts=[
+        dict(kind="core", profile="C04", mask="keys,qset", preds="c04,c05,wf", quick=Q, thorough=T),
         dict(kind="core", profile="C04X", mask="nkeys", preds="c04", quick=300, thorough=6000),
         dict(kind="macro", profile="C04", preds="limit", mask="nkeys,qset", quick=300, thorough=8000),
         dict(kind="macro", profile="C04R", preds="limit", mask="nkeys,qset", quick=200, thorough=6000)]),
@@ -62,16 +62,16 @@ PROPS = {
         dict(kind="core", profile="C06", mask="out,keys,qset,born,stats", preds="c06", quick=Q, thorough=T),
         dict(kind="macro", profile="C06", preds="ttl,limit,c20", mask="ret,keys,born", quick=300, thorough=8000)]),
     "C07": dict(theorems=["Props/C07.v"], parts=[
-        dict(kind="core", profile="C07", mask="keys,queue", preds="c07", quick=Q, thorough=T),
+        dict(kind="core", profile="C07", mask="keys,queue", preds="c07,wf", quick=Q, thorough=T),
         dict(kind="macro", profile="C07", preds="order,limit", mask="keys,queue", quick=300, thorough=8000),
         dict(kind="sched", mode="order", quick=40, thorough=400)]),
     "C08": dict(theorems=["Props/C08.v"], parts=[
-        dict(kind="core", profile="C08", mask="keys,queue,freq", preds="c08", quick=Q, thorough=T),
+        dict(kind="core", profile="C08", mask="keys,queue,freq", preds="c08,wf", quick=Q, thorough=T),
         dict(kind="macro", profile="C08", preds="score,limit", mask="keys,queue,freq", quick=300, thorough=8000)]),
     "C09": dict(theorems=["Props/C09.v"], parts=[
         dict(kind="macro", profile="C09", preds="err,limit,mem", mask="ret,keys,vals", quick=400, thorough=10000)]),
     "C10": dict(theorems=["Props/C10.v"], parts=[
-        dict(kind="macro", profile="C10", preds="cif,limit,mem", mask="ret,keys,vals", quick=400, thorough=10000)]),
+        dict(kind="macro", profile="C10", preds="cif,limit,mem,c20", mask="ret,keys,vals", quick=400, thorough=10000)]),
     "C11": dict(theorems=["Props/C11.v"], parts=[
         dict(kind="macro", profile="C11", preds="inv,limit,mem,ttl", mask="ret,keys,vals,born", quick=400, thorough=10000)]),
     "C12": dict(theorems=["Props/C12.v"], parts=[
@@ -81,7 +81,7 @@ PROPS = {
         dict(kind="macro", profile="C13", preds="frame", mask="counts,keys,queue", quick=400, thorough=10000)]),
     "C14": dict(theorems=["Props/C14.v"], parts=[
         dict(kind="macro", profile="C14", preds="iso,pure,order,limit,score", mask="ret,keys", quick=400, thorough=10000),
-        dict(kind="sched", mode="sharing", quick=120, thorough=3000)]),
+        dict(kind="sched", mode="sharing14", quick=120, thorough=3000)]),
     "C17": dict(theorems=["parts/locks/coq|CLL|Props_C17.v"], parts=[
         dict(kind="locks"),
         dict(kind="macro", profile="C17", preds="", mask="none", quick=300, thorough=8000, blocked_is_failure=True),
@@ -745,6 +745,11 @@ def check_sched_case(lines, table):
             for k in keys:
                 if k not in q:
                     problems.append("UNTRACKED f%d: key %s is stored but not in the order queue %s" % (wf, k, q))
+            if table[wf]["fl"] == "a" and not deadlock:
+                # async: queue and store hold the same keys whenever no store is in progress (C18_async_consistent_always)
+                orphans = [k for k in q if k not in keys and k != "-1"]
+                if orphans:
+                    problems.append("UNTRACKED f%d: at quiescence the async order queue %s lists keys that are not stored (%s)" % (wf, q, keys))
             lim = table[wf]["limit"]
             if lim is not None and len(keys) > lim:
                 problems.append("LIMIT f%d holds %d entries at quiescence, limit %d" % (wf, len(keys), lim))
@@ -775,6 +780,29 @@ def check_sched_case(lines, table):
         rb = [l for l in lines if l.startswith("RB ")]
         if qs and rb and "exec=1" in rb[0] and "exec=1" in qs[-1]:
             problems.append("MISS f%d: the fresh value that thread B stored for the expired key is not served afterwards (%s)" % (f, qs[-1]))
+    if head[1].startswith("dk-") and not deadlock:
+        ra = [l for l in lines if l.startswith("RA ")]
+        rb = [l for l in lines if l.startswith("RB ")]
+        if ra and rb and "panic=" not in ra[0] + rb[0]:
+            for l in [l for l in lines if l.startswith("Q ")][:2]:
+                if "exec=1" in l:
+                    problems.append("MISS f%d: two overlapping first calls for different keys have both returned, nothing can evict, expire or "
+                                    "invalidate, yet the body ran again for a key one of them stored (%s)" % (f, l))
+    if head[1].startswith(("ex-", "dm-")) and not deadlock:
+        qs = [l for l in lines if l.startswith("Q ")]
+        ra = [l for l in lines if l.startswith("RA ")]
+        rb = [l for l in lines if l.startswith("RB ")]
+        # ex-: only when BOTH callers ran the body (A had not stored yet when B looked the key up, so A's store comes
+        # after the re-stamping and is fresh)
+        rc = [l for l in lines if l.startswith("RC ")]
+        both_ran = ("exec=1" in ra[0] and "exec=1" in rb[0] and bool(rc) and "c_blocked=0" in rc[0] and b_blocked is False) if (ra and rb) else False
+        if qs and ra and rb and "panic=" not in ra[0] + rb[0] and "exec=1" in qs[-1] and (both_ran or head[1].startswith("dm-")):
+            if head[1].startswith("ex-"):
+                problems.append("SHARE f%d: the value stored a moment ago by a caller that had been computing while the previous entry "
+                                "expired is not served to the next caller (%s)" % (f, qs[-1]))
+            else:
+                problems.append("SHARE f%d: two overlapping first calls stored one key; their values and the resident entry fit "
+                                "max_memory together, yet the resident entry, stored by another caller, is no longer served (%s)" % (f, qs[-1]))
     if head[1].startswith("lr-"):
         qs = [l for l in lines if l.startswith("Q ")]
         rb = [l for l in lines if l.startswith("RB ")]
@@ -868,6 +896,9 @@ def part_sched(run, part):
             mine = [p for p in problems if p.startswith("DEADLOCK") or p.startswith("NORETURN")]
         elif want == "sharing":
             mine = [p for p in problems if p.startswith("MISS")]
+        elif want == "sharing14":
+            # C14: also the sharing clauses that involve a ttl or max_memory (C03's premise excludes those)
+            mine = [p for p in problems if p.startswith(("MISS", "SHARE"))]
         elif want == "inval":
             mine = [p for p in problems if p.startswith("STALE")]
         elif want == "stats":
@@ -878,7 +909,7 @@ def part_sched(run, part):
             # consistency (C18): values, tracking, limits, panics, calls that never return; needless
             # re-executions (MISS) and statistics belong to C03/C14 and C15
             # (a deadlock is also a call that does not return "the function's value for its own arguments")
-            mine = [p for p in problems if not p.startswith(("MISS", "STATS", "STALE", "ORDER"))]
+            mine = [p for p in problems if not p.startswith(("MISS", "STATS", "STALE", "ORDER", "SHARE"))]
         if dl:
             n_dead += 1
         if mine:
